@@ -12,6 +12,7 @@ import (
 	"os"
 	"reflect"
 	"runtime/debug"
+	"runtime/pprof"
 	"time"
 
 	"verif/engine"
@@ -42,6 +43,10 @@ func scenarios(tier string) []engine.Scenario {
 				e, vi, f := e, vi, f
 				name := fmt.Sprintf("c08/%s/%s/%s", f.name, e.name, e.vals[vi].label)
 				scs = append(scs, engine.Scenario{Name: name, Bound: -1, Fn: func(c *engine.Chooser) {
+					if timingFile != nil {
+						t0 := time.Now()
+						defer func() { timing(name, time.Since(t0)) }()
+					}
 					o := original(c.Seed, e, vi)
 					if got := typeName(o.obj); got != e.name {
 						panic(fmt.Sprintf("catalogue row %q builds a %s (%s)", e.name, got, reflect.TypeOf(o.obj)))
@@ -54,6 +59,25 @@ func scenarios(tier string) []engine.Scenario {
 		}
 	}
 	return scs
+}
+
+// C08_TIMING=<file>: per-scenario wall time (development aid for balancing the quick tier).
+var (
+	timingFile *os.File
+	timingLast string
+	timingAcc  time.Duration
+	timingN    int
+)
+
+func timing(name string, d time.Duration) {
+	if name != timingLast {
+		if timingLast != "" {
+			fmt.Fprintf(timingFile, "%8.0f ms %6d leaves %s\n", timingAcc.Seconds()*1000, timingN, timingLast)
+		}
+		timingLast, timingAcc, timingN = name, 0, 0
+	}
+	timingAcc += d
+	timingN++
 }
 
 func expect(tier string) []string {
@@ -91,6 +115,14 @@ func expect(tier string) []string {
 func main() {
 	// a decoder recursing forever should end the worker in milliseconds, not after growing a 1 GB stack
 	debug.SetMaxStack(64 << 20)
+	if f := os.Getenv("C08_PROFILE"); f != "" {
+		fh, _ := os.Create(f)
+		_ = pprof.StartCPUProfile(fh)
+		go func() { time.Sleep(40 * time.Second); pprof.StopCPUProfile(); fh.Close(); os.Exit(0) }()
+	}
+	if f := os.Getenv("C08_TIMING"); f != "" && os.Getenv("C08_CHILD") != "1" {
+		timingFile, _ = os.OpenFile(f, os.O_APPEND|os.O_CREATE|os.O_WRONLY, 0o644)
+	}
 	if os.Getenv("C08_CHILD") == "1" {
 		childMain()
 		return
